@@ -44,6 +44,8 @@ def main(tier):
             continue
         bad = [s for s in subterms(a["term"]) if isinstance(s, tuple) and s and (s[0] in ("Err", "errmsg", "lift", "return") or (s[0] == "call" and isinstance(s[1], str) and s[1] in ("f64::is_nan", "f64::is_finite", "f64::is_infinite")))]
         run.ob(not bad, "no-err|eval_f64|%s" % ctor, "C05 overflow, division by zero and invalid operations stay values (no Err, no finiteness test)", "%s arm %s" % (where(m, "::ast::eval"), ctor), T.show(bad[0])[:120] if bad else "")
+    from ..scanners import check_literals
+    check_literals(run, m, "C05")
     report_issues(run, models={"eval_f64": m}, tables={"T_eval", "T_prim", "T_lex"})
     run.floor("obligations", run.obligations, 30)
     return run.finish("chain surface->token->node->eval arm for every operation the property names, compared with the IEEE/libm reference term; constants by bit pattern", "./check C05 --tier %s" % tier)
